@@ -1,5 +1,6 @@
 SPECIFICATION Spec
-CONSTANTS NP = 1 MaxRuns = 2 MaxTouch = 99
+CONSTANTS MaxRuns = 2 MaxTouch = 99
+  Scens <- ScenExpB
   Settings <- SettingsAll
   CreatedSetsChanged = TRUE
   KeepHistory = TRUE
